@@ -17,7 +17,8 @@
 from __future__ import annotations
 
 from ..proof import Branch, Node, adds, anode, rules, sdwnode
-from ..proof.helpers import (AdzHelper, AplSentCount, MaxWorlds, NodeCount,
+from ..proof.helpers import (AdzHelper, AplSentCount, FilterHelper, MaxWorlds,
+                             NodeCount,
                              NodesWorlds, WorldIndex)
 from ..tools import EMPTY_SET, group
 from . import fde as FDE
@@ -94,10 +95,25 @@ class Rules(FDE.Rules):
         Helpers = (NodeCount, NodesWorlds, WorldIndex)
 
         def _get_node_targets(self, node, branch, /):
-            # Only count least-applied-to nodes
-            if not self[NodeCount].isleast(node, branch):
+            # Only count least-applied-to nodes, unless none of them has a
+            # world left to visit, so that the others do not starve.
+            if (
+                not self[NodeCount].isleast(node, branch) and
+                self._least_pending(branch)
+            ):
                 return
+            yield from self._get_world_targets(node, branch)
 
+        def _least_pending(self, branch, /) -> bool:
+            "Whether a least-applied-to node still has a target."
+            isleast = self[NodeCount].isleast
+            for node in self[FilterHelper][branch]:
+                if isleast(node, branch):
+                    for _ in self._get_world_targets(node, branch):
+                        return True
+            return False
+
+        def _get_world_targets(self, node, branch, /):
             s = self.sentence(node)
             si = s.lhs
             if self.new_negated(self.negated):
